@@ -476,3 +476,26 @@ Theorem C01_loops_rs_match_model w : 0 < w ->
      Loops.add_digit w (Z.of_nat n) fuel a d = Done (Ops.U_Add_digit w a d)).
 Proof. exact (loops_C01_match_model w). Qed.
 Print Assumptions C01_loops_rs_match_model.
+(* ==== glue tie, round 2 (text written by tools/mk_gluetie.py; keep at the END of the file) ==== *)
+(* ---- tie to the source, second round: the non-loop functions (abs, unsigned_abs, abs_diff, midpoint of buint/mod.rs and bint/mod.rs; BInt::neg; unchecked_add / unchecked_sub) REGENERATED from /repo/src on every run
+   (Generated/Glue.v, tools/rs2v_glue.py) are the model's, function by function, for every digit width, digit count,
+   build mode and operand (no well-formedness hypothesis): an edit of the source that changes what one of these
+   functions computes or delegates to breaks this theorem ---- *)
+From Bnum.Model Require Import Digit Core Shift AddSub Mul Div Bits Pow.
+From Bnum.Model Require Ops NumTraits.
+From Bnum.Generated Require Import Glue.
+From Bnum.Proofs Require Import GlueTieCommon GlueTieC01.
+Theorem C01_glue2_rs_matches_model :
+  (forall dbg w a b, Glue.U_midpoint dbg w a b = U_midpoint dbg w a b) /\
+  (forall w a b, Glue.U_abs_diff w a b = U_abs_diff w a b) /\
+  (forall w a, Glue.I_unsigned_abs w a = I_unsigned_abs w a) /\
+  (forall dbg w a, Glue.I_abs dbg w a = I_abs dbg w a) /\
+  (forall dbg w a b, Glue.I_midpoint dbg w a b = I_midpoint dbg w a b) /\
+  (forall w a b, Glue.I_abs_diff w a b = I_abs_diff w a b) /\
+  (forall dbg w a, Glue.I_neg dbg w a = I_neg dbg w a) /\
+  (forall w a b, Glue.U_unchecked_add w a b = U_checked_add w a b) /\
+  (forall w a b, Glue.U_unchecked_sub w a b = U_checked_sub w a b) /\
+  (forall w a b, Glue.I_unchecked_add w a b = I_checked_add w a b) /\
+  (forall w a b, Glue.I_unchecked_sub w a b = I_checked_sub w a b).
+Proof. exact glue_addsub2_matches_model. Qed.
+Print Assumptions C01_glue2_rs_matches_model.
